@@ -101,3 +101,116 @@ def native_outcome(fn):
     except BaseException as e:  # noqa
         o = Outcome("raise", exc=e, exc_cls=type(e))
         return o
+
+
+class SListK(Kind):
+    """list of tuples with symbolic length; fields: [('offset','int',lo), ('data','bytes')]."""
+
+    def __init__(self, fields, rndmax=3, int_rnd=60, bytes_rnd=30):
+        self.fields, self.rndmax, self.int_rnd, self.bytes_rnd = fields, rndmax, int_rnd, bytes_rnd
+
+    def sym(self, name):
+        fns = {}
+        for f in self.fields:
+            if f[1] == "int":
+                fns[f[0]] = z3.Function("%s_%s" % (name, f[0]), IntS, IntS)
+            else:
+                fns[f[0]] = (z3.Function("%s_%s_arr" % (name, f[0]), IntS, IntS, IntS),
+                             z3.Function("%s_%s_len" % (name, f[0]), IntS, IntS))
+
+        def elem(i):
+            i = Z(i)
+            out = []
+            for f in self.fields:
+                if f[1] == "int":
+                    out.append(fns[f[0]](i))
+                else:
+                    arrf, lenf = fns[f[0]]
+                    j = z3.Int(fresh_name("e"))
+                    out.append(SBytes(z3.Lambda([j], arrf(i, j)), lenf(i)))
+            return tuple(out)
+        sl = SList(elem, z3.Int(name + "_n"), name)
+        sl.fns = fns
+        return sl
+
+    def constraint(self, v):
+        i, j = z3.Int("li!" + v.name), z3.Int("lj!" + v.name)
+        cs = [v.length >= 0]
+        for f in self.fields:
+            if f[1] == "int":
+                if len(f) > 2 and f[2] is not None:
+                    cs.append(z3.ForAll([i], v.fns[f[0]](i) >= f[2]))
+            else:
+                arrf, lenf = v.fns[f[0]]
+                cs.append(z3.ForAll([i], lenf(i) >= 0))
+                cs.append(z3.ForAll([i, j], z3.And(arrf(i, j) >= 0, arrf(i, j) < 256)))
+        return z3.And(cs)
+
+    def small(self, v, scale):
+        i = z3.Int("ls!" + v.name)
+        cs = [v.length <= 3]
+        for f in self.fields:
+            if f[1] == "int":
+                cs.append(z3.ForAll([i], z3.Implies(z3.And(i >= 0, i < 3), z3.And(v.fns[f[0]](i) <= 50 * scale, v.fns[f[0]](i) >= -50 * scale))))
+            else:
+                cs.append(z3.ForAll([i], z3.Implies(z3.And(i >= 0, i < 3), v.fns[f[0]][1](i) <= 8 * scale)))
+        return z3.And(cs)
+
+    def from_model(self, model, v):
+        n = mval(model, v.length).as_long()
+        if n > 50:
+            raise ValueError("list too long")
+        out = []
+        for i in range(n):
+            t = []
+            for f in self.fields:
+                if f[1] == "int":
+                    t.append(mval(model, v.fns[f[0]](i)).as_long())
+                else:
+                    arrf, lenf = v.fns[f[0]]
+                    ln = mval(model, lenf(i)).as_long()
+                    if ln > 4096:
+                        raise ValueError("bytes too long")
+                    t.append(bytes(mval(model, arrf(i, j)).as_long() % 256 for j in range(ln)))
+            out.append(tuple(t))
+        return out
+
+    def random(self, rng):
+        out = []
+        for _ in range(rng.randint(0, self.rndmax)):
+            t = []
+            for f in self.fields:
+                if f[1] == "int":
+                    lo = f[2] if len(f) > 2 and f[2] is not None else -5
+                    t.append(rng.randint(lo, lo + self.int_rnd))
+                else:
+                    t.append(bytes(rng.randrange(256) for _ in range(rng.randint(0, self.bytes_rnd))))
+            out.append(tuple(t))
+        return out
+
+
+def contract_call(spec, bind, result=None, post_key="file", disk_key="home"):
+    """Modular call: use `spec`'s contract instead of the callee's body.
+    bind(I, args) -> input dict (without file0); result(I) -> fresh result value or None."""
+    def h(I, args, kwargs):
+        st = I.disk[disk_key]
+        a = bind(I, args)
+        a["file0"] = SBytes(st.content, st.length)
+        I.path.check(spec.requires(I, a), "call-requires:" + spec.name, kind="call")
+        outcomes = ["return"] + list(spec.raises)
+        k = I.path.choose(len(outcomes)) if len(outcomes) > 1 else 0
+        c1 = z3.Array(fresh_name("havoc_file"), IntS, IntS)
+        n1 = z3.Int(fresh_name("havoc_flen"))
+        if k == 0:
+            out = Outcome("return", result(I) if result else None)
+        else:
+            out = Outcome("raise", exc=SObj(outcomes[k], {"args": ()}), exc_cls=outcomes[k])
+        out.post = {post_key: SBytes(c1, n1)}
+        for nm, g in spec.ensures(I, a, out):
+            I.path.assume(g, "callee-ensures:%s:%s" % (spec.name, nm))
+        I.path.assume(n1 >= 0)
+        st.content, st.length = c1, n1
+        if k == 0:
+            return out.value
+        raise PyRaise(out.exc)
+    return h
